@@ -741,8 +741,8 @@ func vfConcRunTyped(c *vfConcCase) *vfConcHist {
 	case "byte":
 		return vfConcExec(c, func(i int) byte { return byte(i + 1) }, func(k byte) int { return int(k) - 1 })
 	}
-	// keys 8.. share their map shard (hash % 256) with keys 0..7
-	return vfConcExec(c, func(i int) uint64 { return uint64(1 + i%8 + 256*(i/8)) }, func(k uint64) int { return int((k-1)%256) + 8*int((k-1)/256) })
+	// keys 8.. share their map shard (hash % 256) with keys 0..7; key 0 (hash 0, conflict 0) is an ordinary key
+	return vfConcExec(c, func(i int) uint64 { return uint64(i%8 + 256*(i/8)) }, func(k uint64) int { return int(k%256) + 8*int(k/256) })
 }
 
 type vfConcProfile struct {
